@@ -26,6 +26,9 @@ _W = {}
 def load_queries(pid, tier, seed):
     mod = importlib.import_module(f"props.{pid.lower()}")
     qs = mod.queries(tier, seed)
+    flt = os.environ.get("VERIF_QUERY_FILTER")      # development aid: run only the queries whose id contains this text
+    if flt:
+        qs = [q for q in qs if flt in q.qid]
     ids = [q.qid for q in qs]
     if len(set(ids)) != len(ids):
         raise RuntimeError("duplicate query ids")
